@@ -105,10 +105,12 @@ def scn_ops(T, case):
         return (Fvec(variables) if return_functions else T.np.array([])), (Gmat(variables) if return_gradients else T.np.array([]))
 
     A = T.real("lin_coef", (1, N)) if lin else None
-    nlb = ([0.0] * K) + ([0.0] if lin else [])
-    nub = ([np.inf] * K) + ([1.0] if lin else [])  # non-linear: >= 0 ; linear: two-sided
+    nlb = ([0.5] * K) + ([0.25] if lin else [])
+    nub = ([np.inf] * K) + ([0.75] if lin else [])  # non-linear: >= 0.5 ; linear: two-sided [0.25, 0.75] (non-zero bounds on purpose)
     opt = object.__new__(cls)
-    opt._config = types.SimpleNamespace(optimizer=types.SimpleNamespace(speculative=case["spec"], split_evaluations=case["split"]),
+    # the configured method in one of its supported spellings (plug-in prefix, any case); the plug-in works with the bare lower-case name
+    spelled = "scipy/" + method.title() if case["spec"] else method
+    opt._config = types.SimpleNamespace(optimizer=types.SimpleNamespace(speculative=case["spec"], split_evaluations=case["split"], method=spelled),
                                         nonlinear_constraints=types.SimpleNamespace() if K else None)
     opt._method = method
     opt._parallel = bool(B)
@@ -124,10 +126,19 @@ def scn_ops(T, case):
         return T.np.concatenate(rows, axis=0)
 
     def reference(p):
-        ref = NC(np.array(nlb), np.array(nub))
-        ref.set_constraints(raw_values(p))
-        ref.set_gradients(raw_grads(p))
-        return ref
+        """Normalized entries from the SPECIFICATION (C08 proves NormalizedConstraints against it): per row an entry value - lower for a
+        finite lower bound and upper - value for a finite upper one, Jacobian rows with the same sign - not computed by the class under
+        test, so that a defect of that class cannot cancel out."""
+        vals, grads = raw_values(p), raw_grads(p)
+        cons, jac = [], []
+        for i in range(len(nlb)):
+            if np.isfinite(nlb[i]):
+                cons.append([vals[i] - nlb[i]])
+                jac.append([grads[i, c] for c in range(N)])
+            if np.isfinite(nub[i]):
+                cons.append([nub[i] - vals[i]])
+                jac.append([-grads[i, c] for c in range(N)])
+        return types.SimpleNamespace(constraints=T.np.array(cons), gradients=T.np.array(jac))
 
     # ---- arbitrary state satisfying the invariant
     c = T.real("cached_point", (N, B) if B else (N,))
@@ -438,12 +449,69 @@ def scn_batch(T, case):
         T.prove("C07.batch.row_value_is_the_ensemble_value_at_that_row", T.same(results[b].functions.weighted_objective, want) & T.same(results[b].evaluations.variables, X[b, :]))
 
 
+# ------------------------------------------------------------------------------------ vectorized populations: the objects handed to SciPy
+def cases_vectorized(tier):
+    from contracts import C08
+
+    for cid, c in C08.cases_problem(tier):
+        if c.get("members"):
+            yield cid, c
+
+
+def scn_vectorized(T, case):
+    """'Every value returned for a batch member is the ensemble value at that member', at the place where SciPy reads it: the objective
+    callable and the NonlinearConstraint object built by the plug-in for vectorized differential evolution (C08's scenario of the
+    passed problem, under this property's prefix)."""
+    from contracts import C08
+    from contracts.reuse import Renamed
+
+    C08.scn_problem(Renamed(T, "C08.", "C07.passed_objects."), case)
+
+
+# ------------------------------------------------------------------------------------ the completed point; transformed values in combined and split requests
+def cases_completed(tier):
+    from contracts import C09
+
+    for cid, c in C09.cases_completed(tier):
+        if c["N"] <= 3:
+            yield cid, c
+
+
+def scn_completed(T, case):
+    """'The value returned for a point x is the ensemble value AT x': the vector that the driver sends on for a requested point (single
+    or batch) is that point at the free positions and the current fixed values elsewhere - not the configured initial values
+    (C09's scenario under this property's prefix)."""
+    from contracts import C09
+    from contracts.reuse import Renamed
+
+    C09.scn_completed(Renamed(T, "C09.completed.", "C07.completed."), case)
+
+
+def cases_transformed_requests(tier):
+    from contracts import C06
+
+    for cid, c in C06.cases_requests(tier):
+        if c.get("otr"):
+            yield cid, dict(c, prefix="C07.requests")
+
+
+def scn_transformed_requests(T, case):
+    """'Speculative changes only how many evaluations happen, never the values returned': with objective AND constraint transforms the
+    values of a combined function+gradient request are those of the separate requests (C06's request scenario under this property's prefix)."""
+    from contracts import C06
+
+    C06.scn_requests(T, case)
+
+
 SCENARIOS = [
     Scenario("optimizer_callables_from_any_state", scn_ops, cases_ops, {"quick": 3, "thorough": 20}),
     Scenario("evaluator_function_cache", scn_eval_cache, cases_eval_cache, {"quick": 5, "thorough": 30}),
     Scenario("start_begins_with_an_empty_cache", scn_start, cases_start, {"quick": 3, "thorough": 20}),
     Scenario("plan_steps_hand_over", scn_steps, cases_steps, {"quick": 1, "thorough": 2}),
     Scenario("population_requests_through_the_evaluator", scn_batch, cases_batch, {"quick": 3, "thorough": 20}),
+    Scenario("vectorized_population_objects_passed_to_scipy", scn_vectorized, cases_vectorized, {"quick": 2, "thorough": 10}),
+    Scenario("completed_points", scn_completed, cases_completed, {"quick": 3, "thorough": 20}),
+    Scenario("function_transforms_in_combined_and_split_requests", scn_transformed_requests, cases_transformed_requests, {"quick": 3, "thorough": 20}),
 ]
 
 MANIFEST = {
